@@ -5,6 +5,7 @@
 //! usage: corr <suite> <seed> <count> <out-file> [key=value ...]
 //!        corr replay <trace-in> <out-file>         (re-execute the commands of a trace)
 
+mod conc;
 mod interp;
 mod ops;
 mod qgen;
